@@ -66,7 +66,7 @@ fn main_c11(tier: &str, seed: u64, replay: Option<&str>) -> i32 {
         if oracle == "M-memory" {
             let args: Vec<String> = serde_json::from_value(v["mem_args"].clone()).unwrap_or_default();
             let n = v["mem_n"].as_u64().unwrap_or(500) as usize;
-            let (viol, _) = c11::memory_check(&args, n, v["seed"].as_u64().unwrap_or(1));
+            let (viol, _) = c11::memory_check(&args, n, v["seed"].as_u64().unwrap_or(1), v["mem_long_lines"].as_bool().unwrap_or(false));
             return match viol {
                 Some(x) => {
                     println!("VIOLATION property=C11 replay={}", path);
@@ -117,9 +117,13 @@ fn main_c11(tier: &str, seed: u64, replay: Option<&str>) -> i32 {
         vec!["--no-gitconfig".into(), "--width".into(), "120".into(), "--syntax-theme".into(), "none".into(), "--line-buffer-size".into(), "2".into()],
         vec!["--no-gitconfig".into(), "--width".into(), "120".into(), "--color-only".into()],
     ];
-    let mem: Vec<(Option<Violation>, serde_json::Value)> = par_map(mem_cfgs.len(), &|i| {
+    // every configuration with ordinary lines and with over-long lines
+    let mem: Vec<(Option<Violation>, serde_json::Value)> = par_map(mem_cfgs.len() * 2, &|j| {
+        let i = j / 2;
+        let long = j % 2 == 1;
         let a = mem_cfgs[i].clone();
-        sim::on_fresh_thread(simcore::rng::mix(seed, &[simcore::rng::tag("C11-mem"), i as u64]), move || c11::memory_check(&a, mem_n, seed))
+        let nn = if long { mem_n / 10 } else { mem_n };
+        sim::on_fresh_thread(simcore::rng::mix(seed, &[simcore::rng::tag("C11-mem"), j as u64]), move || c11::memory_check(&a, nn.max(50), seed, long))
     });
 
     let known = load_known();
@@ -190,14 +194,15 @@ fn main_c11(tier: &str, seed: u64, replay: Option<&str>) -> i32 {
         exit = 1;
     }
     let mut mem_samples = Vec::new();
-    for (i, (v, info)) in mem.iter().enumerate() {
+    for (j, (v, info)) in mem.iter().enumerate() {
+        let i = j / 2;
         mem_samples.push(info.clone());
         if let Some(x) = v {
             if let Some(k) = known.matches("C11", x) {
                 known_hit.entry(k.signature.clone()).or_insert((k.what.clone(), 0)).1 += 1;
                 continue;
             }
-            let path = write_replay("C11", &format!("M-memory-{}", i), &json!({"property": "C11", "engine": "E2-inproc", "seed": seed, "oracle": "M-memory", "signature": x.signature, "message": x.message, "mem_args": mem_cfgs[i], "mem_n": mem_n}));
+            let path = write_replay("C11", &format!("M-memory-{}", j), &json!({"property": "C11", "engine": "E2-inproc", "seed": seed, "oracle": "M-memory", "signature": x.signature, "message": x.message, "mem_args": mem_cfgs[i], "mem_n": if j % 2 == 1 { (mem_n / 10).max(50) } else { mem_n }, "mem_long_lines": j % 2 == 1}));
             println!("VIOLATION property=C11 replay={}", path.display());
             println!("  oracle={} {}", x.oracle, x.message);
             exit = 1;
